@@ -14,8 +14,9 @@ At(p, lo, v) == [k |-> "attr", p |-> p, sp |-> <<>>, lo |-> lo, v |-> v]
 \* <r id="7"><a>1</a><a>2</a><b x="t">hello</b><c><d>3</d><d>4</d></c><e/></r>
 UDoc == << [k |-> "root", p |-> 0, sp |-> <<>>, lo |-> <<>>, v |-> <<>>], El(1, <<"r">>), At(2, <<"i","d">>, <<"7">>),
            El(2, <<"a">>), Tx(4, <<"1">>), El(2, <<"a">>), Tx(6, <<"2">>), El(2, <<"b">>), At(8, <<"x">>, <<"t">>), Tx(8, <<"h","e","l","l","o">>),
-           El(2, <<"c">>), El(11, <<"d">>), Tx(12, <<"3">>), El(11, <<"d">>), Tx(14, <<"4">>), El(2, <<"e">>),
-           [k |-> "elem", p |-> 11, sp |-> U1, lo |-> <<"n">>, v |-> <<>>], Tx(17, <<"9">>) >>      \* <p:n xmlns:p="u1">9</p:n> inside c
+           El(2, <<"c">>), El(11, <<"d">>), Tx(12, <<"3">>), El(11, <<"d">>), Tx(14, <<"4">>),
+           [k |-> "elem", p |-> 11, sp |-> U1, lo |-> <<"n">>, v |-> <<>>], Tx(16, <<"9">>),       \* <p:n xmlns:p="u1">9</p:n> inside c
+           El(2, <<"e">>) >>
 ASSUME WellFormed(UDoc)
 C(nm) == Rel(<<Step("child", T_name("", nm))>>)
 A_ == C(<<"a">>)
